@@ -269,7 +269,7 @@ impl ScramVersion {
 //@@ qmark
 //@@ ret Result<Vec<u8>, ScramErrorKind>
 //@@ subst `b"Client Key"` => `lit_client_key()` rule=R9
-//@@ subst `.map_err(Into::into)` => `.map_err(|e: XorLengthMismatch| -> (o: ScramErrorKind) { e.err_into() })` rule=R18
+//@@ subst `.map_err(Into::into)` => `.map_err(|e: XorLengthMismatch| -> (o: ScramErrorKind) { e.err_into() })` rule=R18 unless `\.map_err\(`
 //@@ spec
     ensures
         (match r { Ok(x) => sp_client_proof(*self, salted_password@, auth_message@) == Some(x@), Err(_) => sp_client_proof(*self, salted_password@, auth_message@) is None }),   // [C19.scram.client-proof-formula]
@@ -452,7 +452,7 @@ impl SaslProfile {
 //@@ fn file=fe2o3-amqp/src/sasl_profile/mod.rs impl=`impl SaslProfile` name=on_frame
 //@@ orsplit
 //@@ qmark
-//@@ subst `std::str::from_utf8(&challenge.challenge) .map_err(ScramErrorKind::Utf8Error)` => `str_from_utf8(&challenge.challenge).map_err(|e: Utf8Error| -> (o: ScramErrorKind) ensures o == ScramErrorKind::Utf8Error(e) { ScramErrorKind::Utf8Error(e) })` rule=R18
+//@@ subst `std::str::from_utf8(&challenge.challenge) .map_err(ScramErrorKind::Utf8Error)` => `str_from_utf8(&challenge.challenge).map_err(|e: Utf8Error| -> (o: ScramErrorKind) ensures o == ScramErrorKind::Utf8Error(e) { ScramErrorKind::Utf8Error(e) })` rule=R18 unless `\.map_err\(`
 //@@ subst `use sasl::Frame;` => `use sasl::Frame;` rule=optional
 //@@ subst `mechanisms.sasl_server_mechanisms.0.contains(&mechanism)` => `mechanisms.contains_mech(&mechanism)` rule=R9
 //@@ subst `hostname.map(Into::into)` => `opt_str_into(hostname)` rule=R16
